@@ -585,3 +585,61 @@ def desugar_operator_calls(node: ast.AST) -> ast.AST:
     node = _OperatorCalls().visit(node)
     ast.fix_missing_locations(node)
     return node
+
+
+# ---------------------------------------------------------------------------------------------
+def rename_by_definition(fn: ast.AST, table: list[tuple[str, str]], loop_table: list[tuple[str, str]] = ()) -> ast.AST:
+    """A deep copy of ``fn`` in which locals are named after what they are *defined as*:
+    ``table`` maps a regular expression over the text of a local's first binding (earlier renames
+    applied) to the canonical name, ``loop_table`` does the same for ``for`` targets by the text
+    of the iterable.  Rules written against the canonical names then do not depend on what the
+    author called ``match.lastgroup``.  A rename is skipped when the canonical name is already
+    bound to something else in the function."""
+    import re as _re
+
+    node = copy.deepcopy(fn)
+    bound = {n.id for n in ast.walk(node) if isinstance(n, ast.Name) and isinstance(n.ctx, ast.Store)} | {a.arg for a in ast.walk(node) if isinstance(a, ast.arg)}
+    mapping: dict[str, str] = {}
+
+    def apply(old: str, new: str) -> None:
+        if old == new or new in bound or old in mapping:
+            return
+        mapping[old] = new
+        bound.add(new)
+        for n in ast.walk(node):
+            if isinstance(n, ast.Name) and n.id == old:
+                n.id = new
+
+    for n in walk_no_nested(node):
+        if isinstance(n, (ast.For, ast.AsyncFor)) and isinstance(n.target, ast.Name):
+            it = ast.unparse(n.iter)
+            for pat, new in loop_table:
+                if _re.search(pat, it):
+                    apply(n.target.id, new)
+                    break
+    seen: set[str] = set()
+    for n in walk_no_nested(node):
+        tgt = val = None
+        if isinstance(n, ast.Assign) and len(n.targets) == 1 and isinstance(n.targets[0], ast.Name):
+            tgt, val = n.targets[0].id, n.value
+        elif isinstance(n, ast.AnnAssign) and isinstance(n.target, ast.Name) and n.value is not None:
+            tgt, val = n.target.id, n.value
+        if tgt is None or tgt in seen:
+            continue
+        seen.add(tgt)
+        t = ast.unparse(val)
+        for pat, new in table:
+            if _re.search(pat, t):
+                apply(tgt, new)
+                break
+    return node
+
+
+LEXER_NAMES = ([(r"^match\.lastgroup$", "kind"), (r"^match\.group\(\)$", "value"), (r"^match\.group\('name'\)$", "name")], [(r"\.finditer\(", "match")])
+
+
+def lexer_canonical(fn: ast.AST) -> ast.AST:
+    """``rename_by_definition`` with the roles of a regex-driven tokenizer loop: the loop variable
+    over ``<rules>.finditer(...)`` is ``match``, ``match.lastgroup`` is ``kind``, ``match.group()``
+    is ``value`` and ``match.group('name')`` is ``name``."""
+    return rename_by_definition(fn, LEXER_NAMES[0], LEXER_NAMES[1])
